@@ -51,17 +51,27 @@ class Marker(object):
 
 
 class Handlers(object):
-    def __init__(self, types_):
+    def __init__(self, types_, rng=None):
         self.calls = []       # (id(obj), type name, marker, args_ok)
         self.by_obj = {}
         self.table = {}
         self.config = None
+        self.falsy = {}
         for t in types_:
+            if rng is not None and rng.random() < 0.3 and t not in (int, float, bool, str, type(None)):
+                # a handler whose return value is falsy ("emitted verbatim" holds for None, 0, False, '' and [] too);
+                # only for types whose built-in handling could not produce that very value
+                self.falsy[t] = rng.choice(["none", "zero", "false", "empty-str", "empty-list"])
             self.table[t] = self._make(t)
 
     def _make(self, t):
+        falsy = self.falsy.get(t)
+
         def handler(obj, serialize_method, ignore_attribute, ignore, config):
-            m = Marker(len(self.calls), t.__name__)
+            if falsy is None:
+                m = Marker(len(self.calls), t.__name__)
+            else:
+                m = {"none": None, "zero": 0, "false": False, "empty-str": "", "empty-list": []}[falsy]
             ok = type(obj) is t and config is self.config and isinstance(serialize_method, str) \
                 and isinstance(ignore_attribute, str)
             self.calls.append((id(obj), t.__name__, m, ok))
@@ -132,7 +142,7 @@ class Scene(object):
             handled += rng.sample(HANDLED_LIBRARY, rng.randint(0, 3))
             if rng.random() < 0.5:
                 handled.append(rng.choice(self.shapes).cls)
-        self.handlers = Handlers(handled)
+        self.handlers = Handlers(handled, rng)
         table = dict(self.handlers.table)
         if rng.random() < 0.2:
             table[list] = None    # a None entry means "no handler": built-in handling applies
@@ -159,7 +169,7 @@ class Scene(object):
             handled = old + rng.sample(pool, min(len(pool), rng.randint(1, 2)))
         else:
             handled = rng.sample(old, rng.randint(0, len(old))) if old else []
-        self.handlers = Handlers(handled)
+        self.handlers = Handlers(handled, rng)
         self.handlers.config = self.cfg
         keep_none = [k for k, v in self.cfg.serialize_handlers.items() if v is None]
         self.cfg.serialize_handlers.clear()
@@ -289,7 +299,8 @@ class Oracle(object):
         if isinstance(x, (set, frozenset)):
             if type(out) is not list or len(out) != len(x):
                 self.bad("set-shape", path, got=repr(out)[:80])
-            elif not all(isinstance(o, Marker) or any(gen.teq(o, m) for m in x) for o in out):
+            elif not all(isinstance(o, Marker) or any(gen.teq(o, m) for m in x)
+                         or any(o is m for ms in scene.handlers.by_obj.values() for m in ms) for o in out):
                 self.bad("set-members-altered", path, got=repr(out)[:80])
             return
         if isinstance(x, dict):
